@@ -217,6 +217,10 @@ class SymSeq:
         n = len(xs)
         if n == 0:
             return True
+        if n == 1:
+            if self.concrete() and table_source(xs[0], self.to_concrete()) is not None:
+                return True
+            return bool(truth(sym_or(*[it == xs[0] for it in self.items]))) if self.items else False
         for i in range(len(self.items) - n + 1):
             if seq_eq(self.items[i:i + n], xs):
                 return True
@@ -306,7 +310,7 @@ class SymSeq:
                         if it >= 128:
                             raise EngineError("non-ASCII byte in symbolic decode")
                     elif it.hi >= 128:
-                        if core.cur().branch((it >= 128).e):
+                        if bool(truth(it >= 128)):
                             if e == "ascii":
                                 raise UnicodeDecodeError("ascii", b"", 0, 1, "ordinal not in range(128)")
                             raise EngineError("non-ASCII utf-8 decode of symbolic bytes is not modelled")
@@ -319,7 +323,7 @@ class SymSeq:
         for it in self.items:
             hi = it if isinstance(it, int) else it.hi
             if hi >= 128:
-                if isinstance(it, int) or core.cur().branch((it >= 128).e):
+                if isinstance(it, int) or bool(truth(it >= 128)):
                     if e == "ascii":
                         raise UnicodeEncodeError("ascii", "", 0, 1, "ordinal not in range(128)")
                     if e == "utf8":
@@ -667,9 +671,33 @@ def sym_index(seq, i):
     r = items[hi]
     for k in range(hi - 1, lo - 1, -1):
         r = ite(i == k, items[k], r)
+    if isinstance(seq, (str, bytes)) and isinstance(r, SymInt) and len(set(seq)) == len(seq):
+        # provenance: r IS seq[i]; with distinct table entries, seq.find(r) is i again (used by decoders of the same table)
+        if len(TABLE_SRC) > 200000:
+            TABLE_SRC.clear()
+        TABLE_SRC[r.e.get_id()] = (r.e, seq, i)
     if isinstance(seq, str) or (isinstance(seq, SymSeq) and seq.kind == "str"):
         return mk_seq("str", [r])
     return r
+
+
+TABLE_SRC = {}
+
+
+def table_source(ch, table):
+    if isinstance(ch, SymInt):
+        r = TABLE_SRC.get(ch.e.get_id())
+        if r is not None and r[1] == table:
+            return r[2]
+    return None
+
+
+def _table_of(ch):
+    if isinstance(ch, SymInt):
+        r = TABLE_SRC.get(ch.e.get_id())
+        if r is not None:
+            return r[1]
+    return None
 
 
 _HEX = b"0123456789abcdef"
@@ -729,13 +757,30 @@ def dec_source(items):
     return r0[1]
 
 
+def _case_via_table(i, f):
+    """case mapping of a table-lookup result T[k] is the lookup (f(T))[k] - keeps the provenance decoders rely on"""
+    if isinstance(i, SymInt):
+        r = TABLE_SRC.get(i.e.get_id())
+        if r is not None:
+            t2 = f(r[1])
+            if t2 == r[1]:
+                return i
+            if len(t2) == len(r[1]) and len(set(t2)) == len(t2):
+                out = sym_index(t2, r[2])
+                return out.items[0] if isinstance(out, SymSeq) else out
+    return None
+
+
 def _lower(i, text=True):
+    r = _case_via_table(i, lambda t: t.lower())
+    if r is not None:
+        return r
     if isinstance(i, int):
         if text and i >= 128:
             return ord(chr(i).lower()) if len(chr(i).lower()) == 1 else _nomodel()
         return i + 32 if 65 <= i <= 90 else i
     if text and i.hi >= 128:
-        if core.cur().branch((i >= 128).e):
+        if bool(truth(i >= 128)):
             raise EngineError("case mapping of non-ASCII symbolic text")
     return ite(sym_and(i >= 65, i <= 90), i + 32, i)
 
@@ -745,12 +790,15 @@ def _nomodel():
 
 
 def _upper(i, text=True):
+    r = _case_via_table(i, lambda t: t.upper())
+    if r is not None:
+        return r
     if isinstance(i, int):
         if text and i >= 128:
             return ord(chr(i).upper()) if len(chr(i).upper()) == 1 else _nomodel()
         return i - 32 if 97 <= i <= 122 else i
     if text and i.hi >= 128:
-        if core.cur().branch((i >= 128).e):
+        if bool(truth(i >= 128)):
             raise EngineError("case mapping of non-ASCII symbolic text")
     return ite(sym_and(i >= 97, i <= 122), i - 32, i)
 
@@ -765,9 +813,9 @@ def _utf8_items(cp):
     if isinstance(cp, int):
         return list(chr(cp).encode("utf8"))
     c = core.cur()
-    if c.branch((cp < 0x800).e):
+    if bool(truth(cp < 0x800)):
         return [0xC0 | (cp >> 6), 0x80 | (cp & 0x3F)]
-    if c.branch((cp < 0x10000).e):
+    if bool(truth(cp < 0x10000)):
         if bool(truth(sym_and(cp >= 0xD800, cp <= 0xDFFF))):
             raise UnicodeEncodeError("utf-8", "", 0, 1, "surrogates not allowed")
         return [0xE0 | (cp >> 12), 0x80 | ((cp >> 6) & 0x3F), 0x80 | (cp & 0x3F)]
@@ -889,6 +937,17 @@ class SymDict(dict):
         return self._find(k) is not None
 
     def __getitem__(self, k):
+        if isinstance(k, (SymInt, SymBool)) and not self._sym and 0 < dict.__len__(self) <= 128:
+            # small int -> int table: membership is one decision, the value an if-then-else chain (no fork per key)
+            keys = list(dict.keys(self))
+            if all(isinstance(x, int) and not isinstance(x, bool) for x in keys) and \
+                    all(isinstance(v, (int, SymInt)) and not isinstance(v, bool) for v in dict.values(self)):
+                if not bool(truth(sym_or(*[k == x for x in keys]))):
+                    raise KeyError(k)
+                r = dict.__getitem__(self, keys[-1])
+                for x in reversed(keys[:-1]):
+                    r = ite(k == x, dict.__getitem__(self, x), r)
+                return r
         r = self._find(k)
         if r is None:
             if hasattr(type(self), "__missing__"):
@@ -1104,3 +1163,24 @@ class SymSet(set):
         return set.pop(self)
 
     __hash__ = None
+
+
+def _eq_hook(a, b):
+    """equality of a table-lookup result T[i] (T with distinct entries) with a constant or another lookup in the same table"""
+    ra = TABLE_SRC.get(a.e.get_id())
+    if ra is None:
+        return None
+    table, i = ra[1], ra[2]
+    if isinstance(b, int) and not isinstance(b, bool):
+        its = items_of(table)
+        if b not in its:
+            return False
+        return i == its.index(b)
+    if isinstance(b, SymInt):
+        rb = TABLE_SRC.get(b.e.get_id())
+        if rb is not None and rb[1] == table:
+            return i == rb[2]
+    return None
+
+
+core.EQ_HOOK = _eq_hook
